@@ -5,7 +5,7 @@ Import ListNotations.
 Local Open Scope string_scope.
 
 Lemma tie_consumer_cap : f_consumer_cap = ConsumerCap. Proof. reflexivity. Qed.
-Lemma tie_mailbox_cap : f_mailbox_cap = MailboxCap. Proof. reflexivity. Qed.
+Lemma tie_mailbox_cap : f_c12_mailbox_cap = MailboxCap. Proof. reflexivity. Qed.
 
 (* serviceImpl.Receive: lookup under RLock, RUnlock, then the blocking send into the mailbox:
    the service lock is never held while a goroutine waits (LCons / LConsPut hold nothing) *)
